@@ -340,6 +340,20 @@ def check_decode(ctx, R, B, voc, ids):
             back = _outcome(R, lambda: [int(i) for i in enc(out[1])])
             if back != ("ok", list(ids)):
                 B.violate("codec", f"{name}.encode(decode(ids)) != ids for ids = {list(ids)[:8]}: {back}", dict(case, back=back))
+            if len(ids) and (len(ids) + ids[0]) % 3 == 0:
+                # the ids as they come out of a model or an array library: numpy integer arrays, a 1-d torch tensor, lists of 0-d arrays / tensors
+                import numpy as _np
+                carriers = [("numpy int64 array", lambda: _np.array(list(ids), dtype=_np.int64)), ("list of 0-d numpy arrays", lambda: [_np.array(i) for i in ids])]
+                try:
+                    import torch as _t
+                    carriers += [("1-d torch tensor", lambda: _t.tensor(list(ids))), ("list of 0-d torch tensors", lambda: [_t.tensor(i) for i in ids])]
+                except Exception:
+                    pass
+                for label, mk in carriers:
+                    o2 = _outcome(R, lambda: list(dec(mk())))
+                    if o2 != out:
+                        B.violate("codec", f"{name}.decode of the ids {list(ids)[:8]} given as a {label} = {o2}, given as a list of ints = {out[1][:8]}", dict(case, carrier=label, outcome=o2))
+                        break
             j = _outcome(R, lambda: dec(list(ids), joined_tokens=True))
             if j != ("ok", " ".join(out[1])):
                 B.violate("codec", f"{name}.decode(joined_tokens=True) is not the joined list form for ids {list(ids)[:8]}", dict(case, joined=j))
